@@ -174,6 +174,9 @@ def run(ctx):
     # Their inputs are floating-point, so WatershedTrace runs in level mode: the recorded level map is the input, flooding is
     # validated exactly, sweeps against SweepRel, the result against the declarative post-condition.
     repo_test_traces(ctx)
+    # ---- 5: the same routine entered from several Python threads (what a threaded dask scheduler does): every label map must
+    # be the serial one.  (The schedule itself is modelled and trace-validated under C07; this is the C04 face of it.)
+    concurrent_callers(ctx)
     ctx.assume("inputs are integer-valued (float32-exact); inputs whose exact level quotient is a half-integer are "
                "excluded unless (ihmax-1)/(zmax-zmin) is dyadic (C round() vs exact arithmetic)")
     ctx.assume("TLC's transcription is bound to the C code by exact output equality on every enumerated input and by "
@@ -192,6 +195,44 @@ def _run_repo_tests(trace, tests):
     with contextlib.redirect_stdout(buf), contextlib.redirect_stderr(buf):
         rc = pytest.main(["-q", "-p", "no:cacheprovider", "-x"] + tests)
     return int(rc), buf.getvalue()[-1500:]
+
+
+def _threaded_maps(seed, n, nk, nth, workers):
+    from concurrent.futures import ThreadPoolExecutor
+    from wavespectra.partition import specpart
+    rng = np.random.RandomState(seed)
+    specs = []
+    for _ in range(n):
+        a = np.zeros((nk, nth))
+        ii, jj = np.meshgrid(np.arange(nk), np.arange(nth), indexing="ij")
+        for _k in range(4):
+            ci, cj, amp = rng.randint(1, nk - 1), rng.randint(0, nth), rng.randint(30, 90)
+            dj = np.minimum((jj - cj) % nth, (cj - jj) % nth)
+            a += np.maximum(0, amp - 0.4 * (np.abs(ii - ci) + dj) ** 2)
+        specs.append(np.ascontiguousarray(a + rng.randint(0, 3, size=a.shape), dtype="float32"))
+    serial = [specpart.partition(x, 100) for x in specs]
+    with ThreadPoolExecutor(max_workers=workers) as ex:
+        par = list(ex.map(lambda x: specpart.partition(x, 100), specs * 3))
+    bad = sum(1 for k, m in enumerate(par) if not np.array_equal(m, serial[k % n]))
+    return bad, len(par)
+
+
+def concurrent_callers(ctx):
+    from harness.core import run_forked
+    n, nk, nth, workers = (24, 40, 48, 8) if ctx.quick else (96, 48, 72, 16)
+    kind, val = run_forked(_threaded_maps, ctx.seed, n, nk, nth, workers, timeout=900)
+    ctx.case(("threads", n, nk, nth, workers), True)
+    if kind == "crash":
+        ctx.violation({"where": "threads", "kind": "crash"}, "the interpreter died while %d threads called the watershed concurrently (%s)" % (workers, val))
+        return
+    bad, total = val
+    if bad:
+        ctx.violation({"where": "threads", "kind": "label-map"},
+                      "%d of %d label maps computed from %d concurrent threads differ from the serial ones (calls into the C routine overlap)" % (bad, total, workers),
+                      {"grid": [nk, nth], "workers": workers})
+    else:
+        ctx.replayed(total)
+    ctx.note("concurrent_calls", total)
 
 
 def repo_test_traces(ctx):
